@@ -153,6 +153,23 @@ class SSeq(object):
         self.length, self.elem, self.kind = length, elem, kind
 
 
+class FSet(object):
+    """Set of objects over a finite, concrete universe (list of SObj); membership is a z3 Bool
+    per universe element.  Models Python sets of wires without quantifiers."""
+
+    def __init__(self, universe, member=None):
+        self.universe = list(universe)
+        self.member = dict(member) if member is not None else {id(u): z3.BoolVal(False) for u in universe}
+
+    def mem(self, o):
+        if id(o) not in self.member:
+            raise Unsupported('object outside the finite universe of a symbolic set')
+        return self.member[id(o)]
+
+    def copy(self):
+        return FSet(self.universe, self.member)
+
+
 class FuncVal(object):
     def __init__(self, node, env, module, qualname, cls=None):
         self.node, self.env, self.module, self.qualname, self.cls = node, env, module, qualname, cls
@@ -701,7 +718,21 @@ class Interp(object):
     def st_For(self, s, fr):
         it = self.eval(s.iter, fr)
         if isinstance(it, SSeq):
-            return self.cut_loop(s, fr, it)
+            n = z3.simplify(it.length)
+            if z3.is_int_value(n):
+                it = [it.elem(z3.IntVal(i)) for i in range(n.as_long())]
+            else:
+                return self.cut_loop(s, fr, it)
+        if isinstance(it, FSet):
+            # run the body once for an arbitrary member; only bodies that leave the loop at once
+            # (raise / return) are supported without an invariant
+            for u in it.universe:
+                if self.truth(Sym(it.member[id(u)])):
+                    self.assign(s.target, u, fr)
+                    self.exec_block(s.body, fr)
+                    raise Unsupported('loop over a symbolic set whose body continues')
+            self.exec_block(s.orelse, fr)
+            return
         if isinstance(it, SMap):
             raise Unsupported('iteration over symbolic map')
         try:
@@ -1047,6 +1078,8 @@ class Interp(object):
             return self.st.branch(bterm(v))
         if isinstance(v, SSeq):
             return self.st.branch(v.length != 0)
+        if isinstance(v, FSet):
+            return self.st.branch(z3.Or(*v.member.values()) if v.member else z3.BoolVal(False))
         if isinstance(v, SObj):
             h = self.hooks.get('bool')
             if h is not None:
@@ -1161,6 +1194,12 @@ class Interp(object):
             if isinstance(r, Sym):
                 return Sym(z3.Not(bterm(r))) if op == 'NotIn' else r
             return (not r) if op == 'NotIn' else r
+        if isinstance(a, FSet) or isinstance(b, FSet):
+            if not (isinstance(a, FSet) and isinstance(b, FSet)) or op not in ('Eq', 'NotEq'):
+                raise Unsupported('comparison of a symbolic set with %r' % (b,))
+            same = z3.And(*[a.member[id(u)] == b.mem(u) for u in a.universe]) if a.universe \
+                else z3.BoolVal(True)
+            return Sym(same if op == 'Eq' else z3.Not(same))
         if isinstance(a, SObj) or isinstance(b, SObj):
             h = self.hooks.get('obj_compare')
             if h is not None:
@@ -1214,6 +1253,8 @@ class Interp(object):
         return a == b if isinstance(a, (int, str, tuple)) else a is b
 
     def contains(self, container, x):
+        if isinstance(container, FSet):
+            return Sym(container.mem(x))
         if isinstance(container, SMap):
             if container.dom is None:
                 return True
@@ -1301,6 +1342,19 @@ class Interp(object):
             raise Unsupported('class attribute %s.%s' % (o.name, name))
         if isinstance(o, tuple) and len(o) == 2 and o[0] == 'module':
             return self.resolve_import(o[1], name)
+        if isinstance(o, FSet):
+            def fset_method(I_, a, k, o=o, name=name):
+                if name == 'add':
+                    o.member[id(a[0])] = z3.BoolVal(True) if id(a[0]) in o.member else o.mem(a[0])
+                    return None
+                if name == 'difference':
+                    other = a[0]
+                    return FSet(o.universe, {id(u): z3.And(o.member[id(u)], z3.Not(other.mem(u)))
+                                             for u in o.universe})
+                if name == 'copy':
+                    return o.copy()
+                raise Unsupported('symbolic set method %s' % name)
+            return Builtin('set.' + name, fset_method)
         if isinstance(o, SMap):
             return Builtin('map.' + name, lambda I_, a, k, o=o, name=name: map_method(I_, o, name, a, k))
         if isinstance(o, dict):
@@ -1487,11 +1541,17 @@ def map_method(I_, m, name, a, k):
         return m.copy()
     if name == 'update':
         other = a[0]
-        if isinstance(other, SMap):
-            h = I_.hooks.get('map_update')
-            if h is None:
-                raise Unsupported('map.update(map) without model')
-            return h(I_, m, other)
+        if isinstance(other, SMap) and not m.inner and not other.inner:
+            x = z3.Int('upd!%d' % next(I_.st.n))
+            if other.dom is None:
+                m.arr = other.arr
+                m.dom = None if m.dom is None else m.dom
+                return None
+            m.arr = z3.Lambda([x], z3.If(z3.Select(other.dom, x), z3.Select(other.arr, x),
+                                         z3.Select(m.arr, x)))
+            if m.dom is not None:
+                m.dom = z3.Lambda([x], z3.Or(z3.Select(other.dom, x), z3.Select(m.dom, x)))
+            return None
         raise Unsupported('map.update')
     raise Unsupported('map method %s' % name)
 
@@ -1680,6 +1740,9 @@ def _b_list(I_, a, k):
 
 def _b_set(I_, a, k):
     if not a:
+        u = I_.hooks.get('fset_universe')
+        if u is not None:
+            return FSet(u())
         return set()
     return set(I_.iterate(a[0]))
 
